@@ -93,6 +93,7 @@ def plan(ctx):
         ('shard_enum', [('cat', 'A_CAT', L1, i, 32) for i in range(32)] +
                        [('core', 'A_CORE', L2, i, 32) for i in range(32)] +
                        [('tok', 'A_TOK', 3, i, 32) for i in range(32)] +
+                       [('envname', 'A_ENV', 3, i, 8) for i in range(8)] +
                        ([('tokcore', 'A_TOK_CORE', 4, i, 64) for i in range(64)] if ctx.thorough else [])),
         ('shard_random', [('rnd', ctx.pick(1200, 40000), i) for i in range(16)]),
         ('shard_mutations', [('mut', ctx.pick(5, 40), i) for i in range(16)]),
@@ -194,7 +195,10 @@ OPEN_CLOSE = [('{', '}'), ('\\x{', '}'), ('\\x[', ']'), ('\\begin{e}', '\\end{e}
               ('\\newcommand{\\f}{', '}'), ('\\begin{verbatim}', '\\end{verbatim}'),
               # an \\end whose name group itself holds an environment (mismatched at every level)
               ('\\begin{a}\\end{', '}'), ('\\x{\\begin{e}\\item[', ']\\end{e}}'), ('\\(', '\\)'), ('$$\\mbox{', '}$$'),
-              ('\\x[', ']{a}'), ('\\left(\\frac{', '}{b}')]
+              ('\\x[', ']{a}'), ('\\left(\\frac{', '}{b}'),
+              # an item whose body holds a command (a definition) whose argument holds the next item, and so on
+              ('\\item a \\textbf{', '}'), ('\\item \\newcommand{\\x}{', '}'), ('\\item[', '] b \\x{'), ('\\section{\\item ', '}'),
+              ('a \\x {', '} b'), ('\\begin{e}[', ']\\end{e}'), ('\\x{a}[', ']')]
 
 
 def shard_chains(ctx, shard):
